@@ -17,7 +17,7 @@ RULE = ("a family of 21 helpers defined IN THE HARNESS with the current handleba
         "signature evaluated by the generator; non-trivial = every case; distinct by (helper, arguments, mode)")
 DEFINITE_FLOOR = 0.95
 POOL = [("str", "\"s<\"", "s<"), ("int", "7", 7), ("neg", "-3", -3), ("big", "18446744073709551615", 2 ** 64 - 1), ("float", "1.5", F.of(1.5)),
-        ("bool", "true", True), ("null", "null", None), ("arr", "[1, 2]", [1, 2]), ("sarr", "[\"a\"]", ["a"]), ("obj", "{\"k\": 1}", {"k": 1}),
+        ("bool", "true", True), ("null", "null", None), ("arr", "[1, 2]", [1, 2]), ("sarr", "[\"a<\", \"&b\"]", ["a<", "&b"]), ("obj", "{\"k\": \"<v>\"}", {"k": "<v>"}),
         ("path", "dv", "data"), ("missing", "nope", "MISSING"), ("omit", None, "OMIT")]
 SHORT = [p for p in POOL if p[0] in ("str", "int", "bool", "missing", "omit", "arr")]
 
@@ -89,6 +89,23 @@ def expected(sig, pos, hashes, strict):
     return ("ok", res)
 
 
+def text_of(v):
+    """JsonRender::render of a helper result (the pool's only float is 1.5)"""
+    if v is None:
+        return ""
+    if isinstance(v, bool):
+        return "true" if v else "false"
+    if isinstance(v, str):
+        return v
+    if isinstance(v, F):
+        return repr(v.value())
+    if isinstance(v, int):
+        return str(v)
+    if isinstance(v, list):
+        return "[" + ", ".join(text_of(x) for x in v) + "]"
+    return "[object]"
+
+
 def plain(v):
     if isinstance(v, F):
         return v.value()
@@ -145,7 +162,7 @@ def generate(rng, n, tier="quick"):
                     case["id"] = "%s-%05d" % (ID, k)
                     k += 1
                     out.append((case, {"expect": [exp[0], exp[1] if exp[0] == "err" else enc(exp[1]), exp[2] if exp[0] == "err" else None],
-                                       "plain": None if exp[0] == "err" else plain(exp[1]), "form": form, "tpl": tpl, "strict": strict}))
+                                       "plain": None if exp[0] == "err" else plain(exp[1]), "text": None if exp[0] == "err" else text_of(exp[1]), "form": form, "tpl": tpl, "strict": strict}))
     return out
 
 
@@ -161,7 +178,7 @@ def oracle(case, meta, impl):
         return ["%s: expected a result, got %s %s %s" % (meta["tpl"], l.get("r"), l.get("reason"), l.get("args"))]
     if meta["form"] == "expr":
         from ..ref import html_escape
-        exp = html_escape(meta["plain"])
+        exp = html_escape(meta["text"])
         return [] if l["out"] == exp else ["%s: written %r, expected the escaped text %r" % (meta["tpl"], l["out"], exp)]
     try:
         d = json.loads(l["out"])
